@@ -37,6 +37,8 @@ Rewrite rules (closed list, every application logged with source line):
   N4  `E.map_or(LIT, |p| B)` -> `(match E { Some(p) => B, None => LIT })` (definition of Option::map_or)
   N5  `E.map(|p| B).unwrap_or(LIT)` -> `(match E { Some(p) => B, None => LIT })`
   A   arm focus (see //@arms)
+  P   prefix focus (//@cut before=/re/): the function's statements from the anchor (a top-level
+      statement) to the end are replaced by `return self.vx_rest()`, a stub with no contract
 Attributes (`#[..]`), doc comments and ordinary comments are dropped with the signature.
 
 Exit status of this tool (as a library: exception VxError) is about *extraction*; a lost
@@ -783,7 +785,7 @@ def rule_A(src, lo, hi, keep_re):
         else:
             dropped += 1
             dropped_names.append(re.sub(r"\s+", " ", pat)[:60])
-            out.append(("A", toks[b].start, toks[end_tok].end, "{ return vx_other_arm(self); }"))
+            out.append(("A", toks[b].start, toks[end_tok].end, "{ return self.vx_other_arm(); }"))
         p = nxt
     if kept == 0:
         raise VxError("anchor lost: A: no arm matches %r" % keep_re)
@@ -1061,7 +1063,7 @@ class Gen:
         src = self.src(rel)
         loc = find_fn(src, name, kv.get("impl"), int(kv.get("nth", "0")))
         enabled = set(ALL_RULES)
-        maps, sigmaps, arms = [], [], None
+        maps, sigmaps, arms, cut = [], [], None, None
         requires, ensures = [], []
         loops = {}     # n -> dict(invariant=[(name,text)], decreases=[text], ensures=[])
         ats = []       # (regex, where, [lines])
@@ -1083,6 +1085,12 @@ class Gen:
                 mode = None
             elif bs.startswith("arms "):
                 arms = parse_kv(bs[5:])["keep"]
+                mode = None
+            elif bs.startswith("cut "):
+                m = re.match(r"cut before=/(.*)/\s*$", bs)
+                if not m:
+                    raise VxError("%s:%d: bad cut-directive" % (self.vspec_path, vl))
+                cut = m.group(1)
                 mode = None
             elif bs == "requires":
                 mode = "requires"
@@ -1184,6 +1192,24 @@ class Gen:
             sig_text = re.sub(frm, to, sig_text)
             self.log.append(dict(rule="D4", file=rel, line=fn_line, before=frm, after=to, hits=hits, fn=name))
         sig_text = name_return(sig_text, enabled, self.log, rel, fn_line)
+        if cut:
+            ms = list(re.finditer(cut, body))
+            if len(ms) != 1:
+                raise VxError("anchor lost: cut /%s/ matched %d times in %s::%s" % (cut, len(ms), rel, name))
+            off = body.rfind("\n", 0, ms[0].start()) + 1
+            depth = 0
+            for t in code_toks(tokenize(body[:off])):
+                if t.kind == "punct" and t.text == "{":
+                    depth += 1
+                elif t.kind == "punct" and t.text == "}":
+                    depth -= 1
+            if depth != 1:
+                raise VxError("cut anchor /%s/ is not a top-level statement of %s::%s (depth %d)" % (cut, rel, name, depth))
+            dropped = body[off:]
+            body = body[:off] + "        return self.vx_rest();\n    }"
+            self.log.append(dict(rule="P", file=rel, line=fn_line, fn=name,
+                                 before="function suffix from /%s/ (%d lines)" % (cut, dropped.count("\n")),
+                                 after="return self.vx_rest()  -- arbitrary effect on self, arbitrary result"))
         # loop contracts: insert before the loop body's `{`
         inserts = []  # (offset in body, text, [(name, relative line idx)])
         if loops:
